@@ -23,6 +23,19 @@ PR = "loky.backend.process"
 # R-SPAWN-FRESH
 # ---------------------------------------------------------------------------
 
+def _is_param_alias(e, f, x, param, depth=4):
+    """x denotes the parameter `param` (possibly through `p or {}` and local copies)."""
+    if depth == 0:
+        return False
+    if isinstance(x, ast.Name) and x.id == param:
+        return True
+    if isinstance(x, ast.BoolOp) and isinstance(x.op, ast.Or):
+        return _is_param_alias(e, f, x.values[0], param, depth - 1)
+    if isinstance(x, ast.Name):
+        return any(_is_param_alias(e, f, d, param, depth - 1) for d in e.local_defs(f, x.id))
+    return False
+
+
 def r_spawn_fresh(e, R):
     f = e.prog.func(f"{FE}:fork_exec")
     calls = [c for c in func_nodes(f) if isinstance(c, ast.Call) and norm(c.func).endswith("_posixsubprocess.fork_exec")]
@@ -52,8 +65,28 @@ def r_spawn_fresh(e, R):
         stars = [norm(v) for k, v in zip(d.keys, d.values) if k is None]
         if stars == ["os.environ", envn]:
             okenv = True
-    R.check(okenv, "R-SPAWN-FRESH", "fork_exec: child environment = {**os.environ, **env} (overlay last)", f.short, "; ".join(norm(d) for d in disp),
-            "the env= overlay does not override the parent's environment (or the parent's environment is dropped)", e.loc(f, c))
+    # equivalent form: fresh copy of os.environ, then .update(env)
+    for n in func_nodes(f):
+        if isinstance(n, ast.Assign) and isinstance(n.targets[0], ast.Name) and norm(n.value) in ("dict(os.environ)", "os.environ.copy()"):
+            mv = n.targets[0].id
+            if any(isinstance(x, ast.Call) and isinstance(x.func, ast.Attribute) and x.func.attr == "update" and isinstance(x.func.value, ast.Name)
+                   and x.func.value.id == mv and x.args and _is_param_alias(e, f, x.args[0], envn) for x in func_nodes(f)):
+                okenv = True
+                envn_merged = mv
+    R.check(okenv, "R-SPAWN-FRESH", "fork_exec: child environment = the parent's environment overlaid with env (overlay last, fresh mapping)", f.short,
+            "; ".join(norm(d) for d in disp) or "no merge of os.environ and env found",
+            "the child environment is not built as a fresh copy of os.environ overlaid with env=: the overlay does not win, the parent's "
+            "environment is dropped, or a mapping shared between workers is modified", e.loc(f, c))
+    # the caller's mapping is shared by every worker of a pool: it must never be mutated here
+    muts = [x for x in func_nodes(f) if (isinstance(x, ast.Call) and isinstance(x.func, ast.Attribute) and x.func.attr in ("setdefault", "update", "pop", "clear", "popitem")
+                                         and isinstance(x.func.value, ast.Name) and x.func.value.id == envn and not e.local_defs(f, envn)[1:2] and
+                                         all(norm(d) in (f"{envn} or {{}}",) for d in e.local_defs(f, envn)))
+            or (isinstance(x, ast.Subscript) and isinstance(x.ctx, (ast.Store, ast.Del)) and isinstance(x.value, ast.Name) and x.value.id == envn
+                and all(norm(d) in (f"{envn} or {{}}",) for d in e.local_defs(f, envn)))]
+    R.check(not muts, "R-SPAWN-FRESH", "fork_exec: the caller's env mapping is never modified (it is shared by every worker of a pool)", f.short,
+            norm(muts[0])[:60] if muts else "", "fork_exec writes into the env mapping it was given: the executor hands the same mapping to every "
+            "worker, so the first spawn turns the overlay into a snapshot of the parent's whole environment and later workers (respawns, resizes) "
+            "get stale values", e.loc(f, muts[0]) if muts else None)
     enc = isinstance(envx, ast.Name) and any(isinstance(n, ast.For) and norm(n.iter) == f"{envn}.items()" and any(
         isinstance(x, ast.Call) and isinstance(x.func, ast.Attribute) and x.func.attr == "append" and isinstance(x.func.value, ast.Name) and x.func.value.id == envx.id
         for x in ast.walk(n)) for n in func_nodes(f))
